@@ -5,7 +5,7 @@ from fractions import Fraction
 import vlib, fock
 
 CLAIM = {
- "text": "Proof (Lean 4), partial. Modelled exactly and proved for all sizes: (1) the partition of the orbitals into frozen / active, occupied / virtual from an int, a list or per-spin lists (frozen_orbitals.py): the four classes are pairwise disjoint, their union is all orbitals, and order is preserved, inputs are rejected exactly when no active electron is left or every active orbital is doubly occupied (indices outside the orbital range are ignored, as the code does); (2) the active electron / spin bookkeeping: n_alpha + n_beta is the number of active electrons, n_alpha - n_beta the spin, and both are non-negative integers exactly when parity and range conditions hold; (3) the folding of frozen occupied orbitals for a closed core over an arbitrary commutative ring: for a determinant that occupies every frozen orbital, the energy functional of the full integrals equals the folded constant plus the folded one-body part plus the active two-body part (the algebraic identity behind get_active_space_integrals) - proved for the diagonal (mean-field) functional. NOT proved in Lean: the AO->MO transformation and anything inside PySCF, the off-diagonal part of the folding, the encodings (C03) and the eigenvalue statements; these are decided numerically: the dense active-space Hamiltonian is rebuilt independently from AO integrals and MO coefficients (restricted, restricted open-shell, unrestricted with per-spin frozen lists) and compared entry by entry with the matrix of the library's fermionic operator; the reference-determinant expectation value is compared with the mean-field energy under JW/BK/scBK/JKMN in both orderings; the lowest eigenvalue of the (N, S_z) sector is compared with FCISolver and, for the encodings, with the penalised lowest eigenvalue of the qubit operator; random rotations among active orbitals must leave the sector eigenvalue unchanged.",
+ "text": "Proof (Lean 4), partial. Modelled exactly and proved for all sizes: (1) the partition of the orbitals into frozen / active, occupied / virtual from an int, a list or per-spin lists (frozen_orbitals.py): the four classes are pairwise disjoint, their union is all orbitals, and order is preserved, inputs are rejected exactly when no active electron is left or every active orbital is doubly occupied (indices outside the orbital range are ignored, as the code does); (2) the active electron / spin bookkeeping: n_alpha + n_beta is the number of active electrons, n_alpha - n_beta the spin, and both are non-negative integers exactly when parity and range conditions hold; (3) the folding of frozen occupied orbitals for a closed core over an arbitrary commutative ring: for a determinant that occupies every frozen orbital, the energy functional of the full integrals equals the folded constant plus the folded one-body part plus the active two-body part (the algebraic identity behind get_active_space_integrals) - proved for the diagonal (mean-field) functional, and likewise for an UNRESTRICTED reference with different frozen sets for the two spins (fold_core_uhf: the core constant contains the alpha-beta Coulomb repulsion between frozen alpha and frozen beta orbitals, the active one-body parts carry the same-spin Coulomb/exchange field of the frozen orbitals of that spin and the Coulomb field of those of the other). NOT proved in Lean: the AO->MO transformation and anything inside PySCF, the off-diagonal part of the folding, the encodings (C03) and the eigenvalue statements; these are decided numerically: the dense active-space Hamiltonian is rebuilt independently from AO integrals and MO coefficients (restricted, restricted open-shell, unrestricted with per-spin frozen lists) and compared entry by entry with the matrix of the library's fermionic operator; the reference-determinant expectation value is compared with the mean-field energy under JW/BK/scBK/JKMN in both orderings; the lowest eigenvalue of the (N, S_z) sector is compared with FCISolver and, for the encodings, with the penalised lowest eigenvalue of the qubit operator; random rotations among active orbitals must leave the sector eigenvalue unchanged.",
  "note": "Trusted: Lean kernel + standard axioms; PySCF (SCF solution, AO integrals, FCI kernel); numpy/scipy linear algebra.",
  "technique": "Lean 4 theorems (orbital partition, electron bookkeeping, frozen-core folding identity) + partition correspondence + independent dense-Hamiltonian reconstruction and eigenvalue oracle"}
 
